@@ -248,6 +248,7 @@ var c15Faulted = map[string]c15Op{
 	"est-shared-peer-shared-app":   {"est3", c15Est(3, 1, c04Peers[0], c04SDFs[0])},
 	"est-no-qer":                   {"est3", c15Est(3, 0, c04Peers[0], "")},
 	"mod-new-peer":                 {"mod1", c15Mod(1, c04Peers[1])},
+	"mod-same-peer":                {"mod1", c15Mod(1, c04Peers[0])},
 	"del":                          {"del1", c15Del(1)},
 }
 
